@@ -43,6 +43,7 @@ type env struct {
 	F      *zap.Logger // logger with a panicking fatal hook
 	AL     zap.AtomicLevel
 	H      slog.Handler
+	H3     slog.Handler // shared handler with three pending (not yet applied) groups
 	BWS    *zapcore.BufferedWriteSyncer
 	LWS    zapcore.WriteSyncer
 	obs    *observer.ObservedLogs
@@ -95,6 +96,7 @@ func build(family string, warm bool) *env {
 	e.Z = e.L.WithLazy(zap.Int("lazy", 7))
 	e.F = e.L.WithOptions(zap.WithFatalHook(zapcore.WriteThenPanic))
 	e.H = zapslog.NewHandler(core)
+	e.H3 = e.H.WithGroup("a").WithGroup("b").WithGroup("c")
 	e.LWS = zapcore.Lock(newSink())
 	e.G = e.L.Named("g")
 	if warm {
@@ -122,8 +124,12 @@ func rec(f func()) {
 }
 
 var ops = map[string]opFn{
-	"info":     func(e *env, t int) { e.L.Info("m", zap.Int("t", t)) },
-	"check":    func(e *env, t int) { if ce := e.L.Check(zap.WarnLevel, "c"); ce != nil { ce.Write(zap.Int("t", t)) } },
+	"info": func(e *env, t int) { e.L.Info("m", zap.Int("t", t)) },
+	"check": func(e *env, t int) {
+		if ce := e.L.Check(zap.WarnLevel, "c"); ce != nil {
+			ce.Write(zap.Int("t", t))
+		}
+	},
 	"with":     func(e *env, t int) { e.L.With(zap.Int("w", t)).Info("m") },
 	"withlazy": func(e *env, t int) { e.L.WithLazy(zap.Int("w", t)).Info("m") },
 	"named":    func(e *env, t int) { e.L.Named("n" + strconv.Itoa(t)).Info("m") },
@@ -141,7 +147,9 @@ var ops = map[string]opFn{
 	"replaceg": func(e *env, t int) { zap.ReplaceGlobals(e.G) },
 	"globall":  func(e *env, t int) { zap.L().Info("g") },
 	"globals":  func(e *env, t int) { zap.S().Infow("g", "k", t) },
-	"slog":     func(e *env, t int) { _ = e.H.Handle(context.Background(), slog.NewRecord(e.clock.T, slog.LevelInfo, "sl", 0)) },
+	"slog": func(e *env, t int) {
+		_ = e.H.Handle(context.Background(), slog.NewRecord(e.clock.T, slog.LevelInfo, "sl", 0))
+	},
 	"slogattr": func(e *env, t int) {
 		_ = e.H.WithAttrs([]slog.Attr{slog.Int("a", t)}).Handle(context.Background(), slog.NewRecord(e.clock.T, slog.LevelWarn, "sl", 0))
 	},
@@ -149,6 +157,12 @@ var ops = map[string]opFn{
 		r := slog.NewRecord(e.clock.T, slog.LevelInfo, "sl", 0)
 		r.AddAttrs(slog.Int("x", t))
 		_ = e.H.WithGroup("g").Handle(context.Background(), r)
+	},
+	"sloggrp3": func(e *env, t int) {
+		// derive from a shared handler whose pending-group slice may have spare capacity
+		r := slog.NewRecord(e.clock.T, slog.LevelInfo, "sl", 0)
+		r.AddAttrs(slog.Int("x", t))
+		_ = e.H3.WithGroup("t"+strconv.Itoa(t)).Handle(context.Background(), r)
 	},
 	"stack":   func(e *env, t int) { e.L.Error("e", zap.Int("t", t)) },
 	"errs":    func(e *env, t int) { e.L.Info("e", zap.Error(multierr.Combine(errors.New("a"), errors.New("b")))) },
@@ -168,7 +182,7 @@ var ops = map[string]opFn{
 	"obsfilt": func(e *env, t int) { _ = e.obs.FilterMessage("m").Len() },
 }
 
-var commonOps = []string{"info", "check", "with", "withlazy", "named", "withopt", "level", "sync", "lazyinfo", "lazywith", "lazydbg", "sinfow", "swith", "sinfof", "setlevel", "getlevel", "replaceg", "globall", "globals", "slog", "slogattr", "sloggrp", "stack", "errs", "reflect", "panic", "fatal", "dpanic", "lwrite", "lsync"}
+var commonOps = []string{"info", "check", "with", "withlazy", "named", "withopt", "level", "sync", "lazyinfo", "lazywith", "lazydbg", "sinfow", "swith", "sinfof", "setlevel", "getlevel", "replaceg", "globall", "globals", "slog", "slogattr", "sloggrp", "sloggrp3", "stack", "errs", "reflect", "panic", "fatal", "dpanic", "lwrite", "lsync"}
 var reducedOps = []string{"info", "with", "lazyinfo", "sinfow", "setlevel", "replaceg", "globall", "slogattr", "panic", "sync"}
 
 func opsFor(family string) []string {
